@@ -1038,6 +1038,7 @@ def cases(ctx):
         qwire = message_of_abs(q).to_wire()
         yield "tcp", [9, q, qwire, timeout, rng.randrange(2), wevs, stream, revs, [[x, y] for x, y in tab.items()], rng.choice([0, 500])]
     yield from udp_exhaustive(ctx)
+    yield from deadline_cases(ctx, rng)
     yield from big_dgram_cases(ctx, rng)
     yield from fallback_cases(ctx, rng)
     yield from tsig_cases(ctx, rng)
@@ -1079,6 +1080,39 @@ def big_dgram_cases(ctx, rng):
         wire, pabs = build_dgram(q[0], 0x8000 | (q[1] & 0x7900), q[3], "ok", rng.choice([30, 60, 150]), None, b"", i)
         qwire = message_of_abs(q).to_wire()
         yield "udp_big", [5, q, qwire, dest, 5, socket.AF_INET, rng.sample(OPTS, 4), [], [[wire, pabs]], [[0, wire, dest]], 0]
+
+
+def deadline_cases(ctx, rng):
+    """streams whose would-blocks add up across several socket calls to (about) the deadline"""
+    for i in range(ctx.n(60, 600)):
+        stream = bytes(rng.randrange(256) for _ in range(6))
+        evs = []
+        for _ in range(rng.randrange(2, 7)):
+            evs.append([1, rng.choice([1, 2, 3, 4, 5, 6])])
+            evs.append([0, rng.choice([1, 1, 2, 6])])
+        yield "net_read_deadline", [6, stream, evs, rng.choice([5, 8, 10, 12, 15]), 0, [2, 4]]
+        wv = []
+        for _ in range(rng.randrange(1, 5)):
+            wv.append([1, rng.choice([1, 2, 3, 4, 5])])
+            wv.append([0, rng.choice([1, 2, 100])])
+        yield "net_write_deadline", [7, bytes(range(6)), wv, rng.choice([5, 8, 10, 12]), 0]
+    for i in range(ctx.n(50, 500)):
+        q = gen_query(rng)
+        _, w, a = small_msg(rng, q, "genuine")
+        stream = struct.pack("!H", len(w)) + w
+        wv, rv = [], []
+        for _ in range(rng.randrange(0, 3)):
+            wv += [[1, rng.choice([1, 2, 3, 4])], [0, rng.choice([1, 3, 100])]]
+        for _ in range(rng.randrange(1, 4)):
+            rv += [[1, rng.choice([1, 2, 3, 4])], [0, rng.choice([1, 2, 100])]]
+        if rng.random() < 0.5:
+            rv = rv[1:]  # the answer is already there when the send completes
+        tmo = rng.choice([4, 6, 8, 10, 14])
+        if rng.random() < 0.4:
+            # the send side alone waits until (or one tick short of) the deadline
+            wv = [[1, rng.choice([tmo, tmo - 1, tmo + 3])], [0, 100]]
+        qwire = message_of_abs(q).to_wire()
+        yield "tcp_deadline", [9, q, qwire, tmo, 0, wv, stream, rv, [[w, a]], rng.choice([0, 500])]
 
 
 def fallback_cases(ctx, rng):
